@@ -197,7 +197,10 @@ impl WTClient {
     /// Sets the tower status to any of the `TowerStatus` variants.
     pub fn set_tower_status(&mut self, tower_id: TowerId, status: TowerStatus) {
         if let Some(tower) = self.towers.get_mut(&tower_id) {
-            if tower.status != status {
+            if tower.status.is_misbehaving() {
+                // A tower that has been proven misbehaving stays so (e.g. a failed request must not make it retryable).
+                log::debug!("{tower_id} is misbehaving. Its status is not changed to {status}")
+            } else if tower.status != status {
                 tower.status = status
             } else {
                 log::debug!("{tower_id} status is already {status}")
